@@ -13,7 +13,13 @@ func init() { register("C19", "exploration", checkC19) }
 
 var c19Alphabet = []string{"a", "b", "Z", "0", " ", "\"", "\\", "/", "\n", "\t", "\r", "\b", "\f", "\x00", "\x1f", "\x7f", "é", "中", "文", "😀", " ", "<", ">", "&", "'", "{", "}", "[", "]", ":", ","}
 
+// what an escape looks like after it has been written (the backslash is a character of the text)
+var c19EscapeLookalikes = []string{"\\u003c", "\\u003e", "\\u0026", "\\u003C", "\\u2028", "\\u2029", "\\u0000", "\\u001f", "\\u007f", "\\u00e9", "\\ud83d\\ude00", "\\ud800", "\\udc00", "\\u", "\\u12", "\\n", "\\t", "\\r", "\\b", "\\f", "\\\"", "\\/", "\\x41", "\\U0001F600", "\\0", "&lt;", "&gt;", "&amp;", "&quot;", "&#34;", "%22", "%5C", "<", ">", "&", "\u2028", "\u2029", "\u0085", "\ufeff", "\ufffd", "\U0010ffff", "</script>", "<!--", "]]>"}
+
 func c19Text(r *rand.Rand) string {
+	if r.Intn(12) == 0 {
+		return strings.Repeat("\\", r.Intn(3)) + c19EscapeLookalikes[r.Intn(len(c19EscapeLookalikes))] + c19Alphabet[r.Intn(len(c19Alphabet))]
+	}
 	n := r.Intn(8)
 	var sb strings.Builder
 	for i := 0; i < n; i++ {
@@ -162,6 +168,31 @@ func checkC19(c *Ctx) {
 			nf := []float64{math.NaN(), math.Inf(1), math.Inf(-1)}[rng.Intn(3)]
 			vals[i] = Dict([]string{"a", "坏"}, []Val{vals[i], List(Num(1), Num(nf))})
 		}
+	}
+	// texts that look like JSON / HTML escapes once written: a backslash followed by the letters of
+	// an escape, with 0..3 backslashes in front, as value and as key (an encoder that post-processes
+	// its output, or a decoder that unescapes twice, changes exactly these)
+	{
+		k := 0
+		for _, core := range c19EscapeLookalikes {
+			for bs := 0; bs <= 3; bs++ {
+				t := strings.Repeat("\\", bs) + core
+				var v Val
+				switch k % 3 {
+				case 0:
+					v = Dict([]string{"键", "b"}, []Val{Text("x" + t + "y"), Num(1)})
+				case 1:
+					v = Dict([]string{t, "b"}, []Val{Text(t), List(Text(t), Text(t+t))})
+				default:
+					v = Dict([]string{"a"}, []Val{Dict([]string{"p" + t}, []Val{List(Text(t))})})
+				}
+				if k < len(vals) {
+					vals[len(vals)-1-k] = v
+				}
+				k++
+			}
+		}
+		c.Count("escape_lookalike_texts", int64(k))
 	}
 	genSrc := "导入《@JSON》\n输入典\n输出（生成JSON：典）\n" + c19Handler()
 	rtSrc := "导入《@JSON》\n输入典\n令回 =（解析JSON：（生成JSON：典））\n输出 回 为 典\n" + c19Handler()
